@@ -604,12 +604,27 @@ static void scen_files() {
     vfs::calls_reset();
     set_context("load_file");
     ev("op.load_file", size);
+    // sometimes another process truncates the file between load_file's fstat() and its read()
+    if (choose(6, "B.truncate_race") == 5) vfs::world().faults.truncate_race = (uint32_t)pick({1, 2}, "B.truncate_race.rate");
     string r;
     try {
       r = phosg::load_file(path);
     } catch (const std::exception& e) {
       threw = true;
       what = e.what();
+    }
+    vfs::world().faults.truncate_race = 0;
+    if (c.truncations) {
+      // the file changed under the call: throwing is fine, returning the file's present contents is fine,
+      // returning bytes the file never held (padding) is not
+      VS_PROBE("load_file.file_truncated_concurrently");
+      auto now = vfs::lookup(path);
+      if (!threw && now && r != now->data && r != D) {
+        fail(string("load_file/") + diff_kind(r, now->data), "concurrent_truncate", "load_file returned " + std::to_string(r.size()) + " bytes after the file was truncated to " + std::to_string(now->data.size()) + " under it: " + describe_diff(r, now->data));
+      }
+      expect_no_fd_leak("load_file");
+      set_context("");
+      return;
     }
     if (!threw) {
       hash_bytes(r.data(), r.size());
@@ -1380,7 +1395,7 @@ int main(int argc, char** argv) {
       {"concurrent deleter process", "stub: task scheduled between the library's directory calls"}};
   e.expected_probes = {"read_all_fd.saw_short_read", "read_all_fd.crossed_16k_block", "read_all_file.error_mid_stream", "read_all_file.crossed_16k_block",
       "fgets.line_longer_than_block", "fgets.line_longer_than_two_blocks", "fgets.line_exactly_block", "readx.threw_on_short", "save_file.threw_on_write_fault",
-      "load_file.threw_on_read_fault", "unlink.threw_on_eacces", "scoped_fd.move_assign_over_open", "scoped_fd.failed_open", "poll.readd_existing", "poll.remove_present", "read_all_fd.real_pipe", "read_helpers_on_regular_file", "tree_with_fifo", "scoped_fd.holds_descriptor_0"};
-  e.expected_faults = {"short_read", "short_write", "EIO@read", "EINTR@read", "ENOSPC@write", "EINTR@write", "EINTR@poll", "EACCES@unlink", "EACCES@rmdir", "concurrent_delete", "ENOSPC@capacity", "EINTR@close", "staggered_pipe_write", "EAGAIN@read"};
+      "load_file.threw_on_read_fault", "unlink.threw_on_eacces", "scoped_fd.move_assign_over_open", "scoped_fd.failed_open", "poll.readd_existing", "poll.remove_present", "read_all_fd.real_pipe", "read_helpers_on_regular_file", "tree_with_fifo", "scoped_fd.holds_descriptor_0", "load_file.file_truncated_concurrently"};
+  e.expected_faults = {"short_read", "short_write", "EIO@read", "EINTR@read", "ENOSPC@write", "EINTR@write", "EINTR@poll", "EACCES@unlink", "EACCES@rmdir", "concurrent_delete", "ENOSPC@capacity", "EINTR@close", "staggered_pipe_write", "EAGAIN@read", "concurrent_truncate"};
   return driver_main(argc, argv, e);
 }
